@@ -5,6 +5,7 @@ CONSTANTS
   FmtSel = {}
   ClsSel = {}
   K = 4
+  DerivedMax = 12
   MaxFields = 12
   Kinds = {"?", "H", "I", "q", "20s", "varlenH", "varlenHutf8", "bits", "payload", "payload-list", "address", "arrayH-q"}
 INVARIANT RoundTripDef
